@@ -14,6 +14,11 @@ colliding keys, deletes, traversals, statistics, a few maps past 16 KiB):
 Direct oracles on the REAL trace (they do not go through the model): a read-only call (get, includes_key,
 len, is_empty, a traversal, the statistics) emits no write and no set_len event and no seek beyond the
 current end of the file; no call at all seeks beyond the end of a file (the append position is the end).
+Scenario class `reopen`: histories of 2-3 sessions separated by `closeall`, the files re-opened with OTHER creation parameters
+(bucket count, buffers); between the sessions attempts to open the files as another key type and with one byte of a header
+mutated (`mutate`, then restored): expected `panic`; every open - accepted or rejected - is compared event by event with
+Io.open_existing.  Direct oracles on the REAL trace: a rejected open logs no write and no set_len event for any of the three
+files and no seek beyond the end; an open expected to be rejected must be rejected, one expected to succeed must succeed.
 A hit is a violation with a failing input."""
 import os, sys, random, shutil, subprocess
 sys.path.insert(0, os.path.dirname(__file__))
@@ -201,6 +206,149 @@ def gen_sparse(seed, idx):
     return traced(kt, params, ops), {'n': n, 'kt': kt, 'params': params, 'keys': len(keys)}
 
 
+SIG1 = {'key': b'abysdbK\0', 'val': b'abysdbV\0', 'htx': b'abysdbH\0'}
+SIG2 = {'string': b'string\0\0', 'bytes': b'bytes\0\0\0', 'i64': b'i64_le\0\0', 'u64': b'u64_le\0\0', 'vu64': b'u64_le\0\0'}
+
+
+def gen_reopen(seed, idx):
+    """2-3 sessions on the same three files, separated by `closeall`; every re-open with OTHER creation parameters (bucket
+    count / capacity / default, buffer kinds); between the sessions: an attempt to open as another key type (panic), a header
+    byte mutated (panic) and restored; the fine trace is on throughout, drained after every call (also after `closeall`)"""
+    g = G.G(seed, 'io-reopen', idx)
+    r = g.rng
+    nreq = r.choice([1, 2, 3, 4, 5, 8, 8, 12, 16, 17, 32, 33, 64, 100, 128])
+    n = 1
+    while n < nreq:
+        n *= 2
+    kt = G.KTS[idx % 5] if idx < 10 else r.choice(['bytes', 'bytes', 'string', 'string', 'u64', 'i64', 'vu64'])
+
+    def bufs():
+        return 'V%s,K%s,H%s' % tuple(r.choice(['A', 'A', 'P1000', 'S262144', 'S0']) for _ in range(3))
+
+    def other_params():
+        """creation parameters that differ from the ones the files were created with: all of them must be ignored"""
+        c = r.random()
+        if c < 0.5:
+            b = 'B%d' % r.choice([v for v in [1, 2, 4, 7, 8, 16, 31, 64, 256, 1000] if v != nreq])
+        elif c < 0.8:
+            b = 'C%d' % r.choice([1, 5, 7, 8, 9, 30, 100, 1000])
+        elif c < 0.9:
+            b = 'D'
+        else:
+            return 'default'
+        return b + ',' + bufs()
+    params = 'B%d,%s' % (nreq, bufs())
+    ks = g.key_universe(kt, r.choice([3, 6, 10, 16]))
+    absent = g.key_universe(kt, 2)
+    present = set()
+
+    def session_ops(nops):
+        out = []
+        for _ in range(nops):
+            c = r.random()
+            if c < 0.45:
+                k = r.choice(ks)
+                out.append('put m0 %s %s' % (G.hx(k), value_token(r, 0.08)))
+                present.add(k)
+            elif c < 0.60:
+                k = r.choice(ks + absent[:1])
+                out.append('del m0 %s' % G.hx(k))
+                present.discard(k)
+            elif c < 0.78:
+                out.append('get m0 %s' % G.hx(r.choice(ks + absent)))
+            elif c < 0.84:
+                out.append('has m0 %s' % G.hx(r.choice(ks + absent)))
+            elif c < 0.89:
+                out.append(r.choice(['len m0', 'empty m0']))
+            elif c < 0.96:
+                out.append('iter m0 %s' % r.choice(FLAVOURS))
+            else:
+                out.append('stats m0')
+        return out
+    lines = ['db d0 db', 'iotrace on']
+    expect = {}          # line index -> 'panic' | 'ok'
+    counts = {'sessions': 0, 'wrong_type': 0, 'mutated': 0, 'known_pair': 0, 'reopens': 0}
+
+    def call(l):
+        lines.extend([l, 'iodrain'])
+
+    def close():
+        lines.extend(['closeall', 'iodrain', 'snap db'])
+
+    def wrong_type():
+        others = [t for t in G.KTS if SIG2[t] != SIG2[kt]]
+        lines.append('db d0 db')
+        expect[len(lines)] = 'panic'
+        call('map mx d0 %s m %s' % (r.choice(others), r.choice(['default', other_params()])))
+        counts['wrong_type'] += 1
+        close()
+        if kt in ('u64', 'vu64') and r.random() < 0.5:
+            # the known finding D6: the two types share one signature, the open is accepted (model and crate agree)
+            lines.append('db d0 db')
+            expect[len(lines)] = 'ok'
+            call('map mx d0 %s m %s' % ('vu64' if kt == 'u64' else 'u64', other_params()))
+            call('len mx')
+            counts['known_pair'] += 1
+            close()
+
+    def mutated():
+        c = r.random()
+        if c < 0.70:
+            ext, pos = r.choice(['key', 'val', 'htx']), r.randrange(16)
+            orig = (SIG1[ext] + SIG2[kt])[pos]
+        elif c < 0.88 or n >= 256:
+            ext, pos, orig = r.choice(['key', 'val']), r.randrange(16, 24), 0       # reserve0 must be 0
+        else:
+            ext, pos, orig = 'htx', 16, n                                             # the stored bucket count -> 0: refused
+        if ext == 'htx' and pos == 16:
+            v = 0
+        else:
+            v = r.choice([x for x in [(orig + 1) % 256, (orig - 1) % 256, 0, 255, orig ^ 1, orig ^ 0x20, orig ^ 0x80, r.randrange(256)] if x != orig])
+        lines.extend(['mutate db m.%s %d %d' % (ext, pos, v), 'snap db', 'db d0 db'])
+        expect[len(lines)] = 'panic'
+        call('map mx d0 %s m %s' % (kt, r.choice([params, other_params()])))
+        counts['mutated'] += 1
+        close()
+        lines.append('mutate db m.%s %d %d' % (ext, pos, orig))
+    # session 1: creation
+    expect[len(lines)] = 'ok'
+    call('map m0 d0 %s m %s' % (kt, params))
+    for l in session_ops(r.choice([8, 20, 40])):
+        call(l)
+    if r.random() < 0.5:
+        call('put m0 %s z%dx5' % (G.hx(ks[0]), r.choice([4090, 5000, 8200])))
+        present.add(ks[0])
+    close()
+    counts['sessions'] = 1
+    nsess = r.choice([2, 2, 3])
+    for sno in range(2, nsess + 1):
+        what = [wrong_type, mutated] if (idx + sno) % 2 == 0 else [mutated, wrong_type]
+        for f in what:
+            if r.random() < 0.75:
+                f()
+        lines.append('db d0 db')
+        expect[len(lines)] = 'ok'
+        call('map m0 d0 %s m %s' % (kt, other_params()))
+        counts['reopens'] += 1
+        call('len m0')
+        for k in ks[:8] + absent[:1]:
+            call('get m0 %s' % G.hx(k))
+        for l in session_ops(r.choice([6, 15, 30])):
+            call(l)
+        if r.random() < 0.6:
+            # a value across the chunk edge: the split of the write follows the buffer of THIS session
+            call('put m0 %s z%dx7' % (G.hx(r.choice(ks)), r.choice([3890, 4097, 5000, 8200])))
+        if sno == nsess:
+            call('iter m0 iter')
+            call('stats m0')
+        close()
+        counts['sessions'] += 1
+    if r.random() < 0.5:
+        r.choice([wrong_type, mutated])()
+    lines += ['iotrace off', 'snap db']
+    return lines, {'n': n, 'kt': kt, 'params': params, 'keys': len(ks), 'expect': expect, 'counts': counts}
+
+
 # census of the REAL trace against the domain of the cache transparency theorem (Cache_proofs.cache_refines_flat): the flat
 # domain excludes reads that end beyond the end of the file and a shrinking set_len (seeks beyond the end are reported as
 # violations by the oracle below)
@@ -223,6 +371,10 @@ def trace_oracle(lines, impl_lines):
             continue
         opi, op = cur if cur else (i, '')
         kind = op.split()[0] if op else ''
+        # a rejected open (the runner reports `panic`) must leave the three files untouched: it is held to the read-only rule
+        rejected = kind == 'map' and opi < len(impl_lines) and impl_lines[opi].startswith('panic')
+        ro = kind in READ_ONLY or rejected
+        what_call = 'the rejected open' if rejected else 'the read-only call'
         for e in out.split()[1:]:
             t = e.split(':')
             f, what = t[0], t[1]
@@ -242,13 +394,13 @@ def trace_oracle(lines, impl_lines):
                 if tgt > end[f]:
                     return ('`%s` seeks the .%s file to %d, beyond its end %d (the buffered file then EXTENDS it): event `%s`' % (op[:80], f, tgt, end[f], e), opi)
             elif what == 'w':
-                if kind in READ_ONLY:
-                    return ('the read-only call `%s` writes to the .%s file: event `%s`' % (op[:80], f, e), opi)
+                if ro:
+                    return ('%s `%s` writes to the .%s file: event `%s`' % (what_call, op[:80], f, e), opi)
                 if t[2] != '?':
                     end[f] = max(end[f], int(t[2]) + int(t[3]))
             elif what == 'l':
-                if kind in READ_ONLY:
-                    return ('the read-only call `%s` changes the length of the .%s file: event `%s`' % (op[:80], f, e), opi)
+                if ro:
+                    return ('%s `%s` changes the length of the .%s file: event `%s`' % (what_call, op[:80], f, e), opi)
                 end[f] = int(t[2])
     return None
 
@@ -277,7 +429,7 @@ def check_history(ctx, scen, idx, lines, info=None):
     ctx.distinct.add('\n'.join(lines))
     res = {'ok': True, 'ops': 0, 'events': 0}
     name = '%s_%d' % (scen, idx)
-    head = 'Io correspondence, scenario %s #%d, seed %s %s' % (scen, idx, ctx.seed, info or '')
+    head = 'Io correspondence, scenario %s #%d, seed %s %s' % (scen, idx, ctx.seed, {k: v for k, v in (info or {}).items() if k != 'expect'} or '')
     # 1. direct oracles on the real trace: a failing input of the implementation itself
     hit = trace_oracle(lines, il)
     if hit:
@@ -294,6 +446,17 @@ def check_history(ctx, scen, idx, lines, info=None):
         ctx.violation(name + '_model', head + '\nthe Io model run failed: %s' % mst, lines, found=False)
         res['ok'] = False
         return res
+    # 1b. the opens of a reopen history: rejected where it must be, accepted where it must be (real crate, directly)
+    for i, want in sorted(((info or {}).get('expect') or {}).items()):
+        got = il[i] if i < len(il) else 'MISSING'
+        if (want == 'panic') != got.startswith('panic') or (want == 'ok' and got != 'ok'):
+            why = ('was NOT rejected (key type of another signature / mutated header byte)' if want == 'panic' else 'did not succeed')
+            ctx.violation(name + '_open', head + '\nthe open `%s` %s: the runner reports `%s`' % (lines[i][:100], why, got[:100]),
+                          lines[:i + 2] + ['iotrace off', 'closeall', 'snap db'], found=True)
+            res['ok'] = False
+            break
+    rejected_at = set(i for i, want in ((info or {}).get('expect') or {}).items() if want == 'panic')
+    accepted_at = set(sorted(i for i, want in ((info or {}).get('expect') or {}).items() if want == 'ok')[1:])     # the first one is the creation
     # 2. results and event lists, line by line
     for i, l in enumerate(lines):
         a = il[i] if i < len(il) else 'MISSING'
@@ -301,6 +464,10 @@ def check_history(ctx, scen, idx, lines, info=None):
         k = l.split()[0]
         if k == 'iodrain':
             res['events'] += max(0, len(a.split()) - 1)
+            if (i - 1) in rejected_at:
+                res['rejected_open_events'] = res.get('rejected_open_events', 0) + max(0, len(a.split()) - 1)
+            elif (i - 1) in accepted_at:
+                res['accepted_reopen_events'] = res.get('accepted_reopen_events', 0) + max(0, len(a.split()) - 1)
             if a != b:
                 ctx.disagreements += 1
                 j, x, y, before = first_event_diff(a, b)
@@ -330,7 +497,7 @@ def check_history(ctx, scen, idx, lines, info=None):
     # 3. the files, byte for byte
     for ext in ('htx', 'key', 'val'):
         pa = os.path.join(d, 'impl', 'db', 'm.' + ext)
-        pb = os.path.join(d, 'model_dump', 'snap1', 'm.' + ext)
+        pb = os.path.join(d, 'model_dump', 'snap%d' % max(1, sum(1 for l in lines if l.split()[0] == 'snap')), 'm.' + ext)
         try:
             same = open(pa, 'rb').read() == open(pb, 'rb').read()
         except OSError as e:
@@ -342,7 +509,11 @@ def check_history(ctx, scen, idx, lines, info=None):
             res['ok'] = False
     # 4. the record-level model alongside
     summ = xc[0] if xc else ''
-    if not summ.startswith('summary') or ' api_differ=0 ' not in summ + ' ' or not summ.rstrip().endswith('render_differ=0') or 'render_checks=0' in summ:
+    for tok in summ.split()[1:]:
+        kk, _, vv = tok.partition('=')
+        if vv.isdigit():
+            res['xc_' + kk] = int(vv)
+    if not summ.startswith('summary') or ' api_differ=0 ' not in summ + ' ' or ' open_differ=0 ' not in summ + ' ' or not summ.rstrip().endswith('render_differ=0') or 'render_checks=0' in summ:
         ctx.disagreements += 1
         if res['ok']:
             ctx.violation(name + '_xcheck', head + '\nIo model vs record-level model (same driver run): %s' % ' | '.join(xc[:4]), lines, found=False)
@@ -356,16 +527,20 @@ def _publish_domain(ctx):
     ctx.distribution['io_real_trace_vs_cache_theorem_domain'] = {k: (dict(v) if isinstance(v, dict) else v) for k, v in CACHE_DOMAIN.items()}
 
 
-def scen_io(ctx, n_hist=None, n_big=None, n_casc=None, n_sparse=None):
+def scen_io(ctx, n_hist=None, n_big=None, n_casc=None, n_sparse=None, n_reopen=0):
     ctx.rule = ('L_io: every VarFile primitive of every call (seek target / read / write / set_len with position and length), real crate vs the extracted '
                 'byte-level model Io.v, event by event; API results; final files byte for byte; Io files = Layout.render of the record-level model; '
-                'direct oracles on the real trace (no write/set_len/extending seek in a read-only call, no seek beyond the end at all); distinct = distinct op files')
+                'direct oracles on the real trace (no write/set_len/extending seek in a read-only call, no seek beyond the end at all); class reopen: sessions separated by closeall, '
+                're-opened with other creation parameters (Io.open_existing), opens as a key type of another signature and with one header byte mutated: rejected, and a rejected open '
+                'logs no write, no set_len, no seek beyond the end on any of the three files; distinct = distinct op files')
     n_hist = n_hist if n_hist is not None else ctx.scale(60, 400)
     n_big = n_big if n_big is not None else ctx.scale(4, 24)
     n_casc = n_casc if n_casc is not None else ctx.scale(12, 80)
     n_sparse = n_sparse if n_sparse is not None else ctx.scale(16, 100)
+    n_reopen = n_reopen if n_reopen is not None else ctx.scale(40, 240)      # default 0: the callers in scenarios.py (C01/C04/C08/C15/C18) are unchanged; None = 40 / 240
     jobs = ([('hist', i, False) for i in range(n_hist)] + [('big', i, True) for i in range(n_big)] +
-            [('cascade', i, False) for i in range(n_casc)] + [('sparse', i, False) for i in range(n_sparse)])
+            [('cascade', i, False) for i in range(n_casc)] + [('sparse', i, False) for i in range(n_sparse)] +
+            [('reopen', i, False) for i in range(n_reopen)])
 
     def one(job):
         scen, i, big = job
@@ -375,10 +550,13 @@ def scen_io(ctx, n_hist=None, n_big=None, n_casc=None, n_sparse=None):
             lines, info = gen_cascade(ctx.seed, i)
         elif scen == 'sparse':
             lines, info = gen_sparse(ctx.seed, i)
+        elif scen == 'reopen':
+            lines, info = gen_reopen(ctx.seed, i)
         else:
             lines, info = gen_history(ctx.seed, i if not big else 100000 + i, nops, big_files=big)
         out = check_history(ctx, scen, i, lines, info)
         out['info'] = info
+        out['scen'] = scen
         return out
     from concurrent.futures import ThreadPoolExecutor
     with ThreadPoolExecutor(max_workers=8) as ex:
@@ -393,6 +571,20 @@ def scen_io(ctx, n_hist=None, n_big=None, n_casc=None, n_sparse=None):
     d['key_files_past_16KiB'] = sum(1 for x in res if x.get('size_key', 0) > 16384)
     d['val_files_past_16KiB'] = sum(1 for x in res if x.get('size_val', 0) > 16384)
     d['writes_ending_on_a_4KiB_chunk_boundary'] = sum(x.get('split_writes', 0) for x in res)
+    ro = [x for x in res if x.get('scen') == 'reopen']
+    d['reopen_histories'] = len(ro)
+    d['reopen_histories_agreeing'] = sum(1 for x in ro if x['ok'])
+    d['reopen_sessions'] = sum(x['info']['counts']['sessions'] for x in ro)
+    d['reopens_with_other_parameters'] = sum(x['info']['counts']['reopens'] for x in ro)
+    d['opens_as_wrong_key_type'] = sum(x['info']['counts']['wrong_type'] for x in ro)
+    d['opens_with_mutated_header_byte'] = sum(x['info']['counts']['mutated'] for x in ro)
+    d['opens_as_known_pair_u64_vu64'] = sum(x['info']['counts']['known_pair'] for x in ro)
+    d['io_events_of_rejected_opens_compared'] = sum(x.get('rejected_open_events', 0) for x in ro)
+    d['io_events_of_accepted_reopens_compared'] = sum(x.get('accepted_reopen_events', 0) for x in ro)
+    # from the model driver: Io.open_existing against the pure header check Open.open_files on the same images
+    d['model_opens_of_existing_files'] = sum(x.get('xc_opens_of_existing', 0) for x in res)
+    d['model_opens_rejected'] = sum(x.get('xc_opens_rejected', 0) for x in res)
+    d['model_open_vs_Open_open_files_differ'] = sum(x.get('xc_open_differ', 0) for x in res)
     ctx.distribution['model_paths'] = dict(sorted(FEATURES.items()))
     bk = ctx.distribution.setdefault('io_buckets', {})
     for x in res:
